@@ -2,20 +2,22 @@
 # Developer command: run every check against every patch in selftest/mutants, selftest/benign and seeded/*/patch.diff
 # on a scratch copy of /repo (never touches /repo or /verif/evidence). Writes selftest/MATRIX.md.
 # usage: selftest/matrix.sh [pattern]
-cd /verif || exit 2
+HERE="$(cd "$(dirname "$0")/.." && pwd)"
+cd "$HERE" || exit 2
 PAT="${1:-}"
-SCR=/tmp/st_repo
+SCR=/tmp/st_repo_$$
 EV=/tmp/st_ev_$$
 mkdir -p "$EV"
-OUT=/verif/selftest/MATRIX.md
+OUT="$HERE/selftest/MATRIX.md"
 CHECKS="C01 C02 C03 C04 C05 C06 C07 C08 C09 C10 C11 C12 C13 C14 C15 C16 C18 C19 C20"
 echo "| patch | kind | checks that fire (exit 1) | no verdict (exit 2) |" > "$OUT.tmp"
 echo "|---|---|---|---|" >> "$OUT.tmp"
 for P in selftest/mutants/*.patch selftest/benign/*.patch seeded/*/patch.diff; do
+  rm -rf "$HERE"/.work/facts-st_repo_$$-*
   [ -f "$P" ] || continue
   case "$P" in *"$PAT"*) ;; *) continue;; esac
   rm -rf "$SCR"; git -C /repo worktree prune; cp -r /repo "$SCR"; rm -rf "$SCR/target" "$SCR/.git"
-  (cd "$SCR" && git init -q . && git add -A >/dev/null && git -c user.email=a@b -c user.name=x commit -qm base >/dev/null && git apply "/verif/$P") || { echo "| $P | - | PATCH DOES NOT APPLY | |" >> "$OUT.tmp"; continue; }
+  (cd "$SCR" && git init -q . && git add -A >/dev/null && git -c user.email=a@b -c user.name=x commit -qm base >/dev/null && git apply "$HERE/$P") || { echo "| $P | - | PATCH DOES NOT APPLY | |" >> "$OUT.tmp"; continue; }
   fired=""; nov=""
   for c in $CHECKS; do
     PG_REPO="$SCR" PG_EVIDENCE_DIR="$EV" ./check $c >/dev/null 2>&1; rc=$?
@@ -27,4 +29,4 @@ for P in selftest/mutants/*.patch selftest/benign/*.patch seeded/*/patch.diff; d
   echo "$P:$fired / noverdict:$nov"
 done
 mv "$OUT.tmp" "$OUT"
-rm -rf "$SCR" "$EV"
+rm -rf "$SCR" "$EV" "$HERE"/.work/facts-st_repo_$$-*
